@@ -348,6 +348,7 @@ type oracleUnique struct {
 	rejections    int
 	multiAccepted int
 	exactChecked  int
+	reopens       int
 }
 
 func (o *oracleUnique) before(r *hRun, step bson.D) error {
@@ -442,6 +443,10 @@ func (o *oracleUnique) after(r *hRun, step, res bson.D) error {
 				}
 			}
 		}
+	}
+	if asS(getD(step, "op")) == "reopen" {
+		o.reopens++
+		r.x.Class("reopened")
 	}
 	// exactness for inserts and index builds
 	op := asS(getD(step, "op"))
